@@ -231,7 +231,9 @@ static void run_C02(const Args &a, long cs) {
 			distinct(hash_mix(h, hash_str(jarr(ders))));
 			std::string dj = "{\"ders\":" + jarr(ders) + ",\"lib\":" + jnum(lv);
 			if (above) {
-				if (!(lv == 0)) viol(std::string("C02:ndsplineeval_deriv:derivative-above-order-not-zero") + (high ? "" : ":order0-axis"), dj + ",\"point\":" + pt_json(s, x, c) + "}");
+				bool a0 = false, a1 = false;
+				for (int d = 0; d < nd; d++) if (ders[d] > s.order[d]) { if (s.order[d] == 0) a0 = true; else a1 = true; }
+				if (!(lv == 0)) viol(std::string("C02:ndsplineeval_deriv:derivative-above-order-not-zero") + (a0 ? ":order0-axis" : "") + (a1 ? ":order>=1-axis" : ""), dj + ",\"point\":" + pt_json(s, x, c) + "}");
 				continue;
 			}
 			RefVal rv = ref_eval_point(s, x.data(), ders.data());
@@ -241,7 +243,7 @@ static void run_C02(const Args &a, long cs) {
 				// discriminate the on-knot/top-of-support class (one-sided convention for derivative orders >= 2)
 				bool topknot = false;
 				for (int d = 0; d < nd; d++) if (ders[d] >= 2) { const auto &k = s.knots[d]; int nk = (int)k.size(); if (x[d] >= k[nk - 1 - s.order[d]]) for (double kk : k) if (kk == x[d]) topknot = true; }
-				viol(std::string("C02:ndsplineeval_deriv:derivative-mismatch:") + (high ? "order>=2" : "order<=1") + (topknot ? ":on-knot-at-or-above-top" : "") + ":" + tag,
+				viol(std::string("C02:ndsplineeval_deriv:derivative-mismatch:") + (high ? "order>=2" : "order<=1") + (topknot ? ":on-knot-at-or-above-top" : ":" + tag),
 				     dj + ",\"ref\":" + jnum((double)rv.S) + ",\"M\":" + jnum((double)rv.M) + ",\"tol\":" + jnum((double)t) + ",\"point\":" + pt_json(s, x, c) + "}");
 			}
 		}
@@ -491,9 +493,18 @@ static void run_C05(const Args &a, long cs) {
 	volatile double sink = 0;
 	for (int p = 0; p < npts; p++) {
 		bool anynan = false;
-		int hostile = 1 + (int)r.below(nd);
-		for (int d = 0; d < nd; d++) { auto &k = s.knots[d]; xv[d] = (d < hostile || r.coin(0.2)) ? hostile_coord(r, k) : k[0] + (k.back() - k[0]) * r.U(); if (std::isnan(xv[d])) anynan = true; }
-		std::shuffle(xv.begin(), xv.end(), std::default_random_engine((unsigned)r.u64()));
+		bool edge_mode = r.coin(0.45); // mostly admissible vectors whose special coordinates sit on knots / neighbours / ends
+		int hostile = 1 + (int)r.below(edge_mode ? std::min(nd, 2) : nd);
+		std::vector<int> rank(nd); for (int d = 0; d < nd; d++) rank[d] = d;
+		for (int d = nd - 1; d > 0; d--) std::swap(rank[d], rank[r.below(d + 1)]);
+		for (int d = 0; d < nd; d++) {
+			int pos = rank[d]; // position in a random order decides which dimensions get the special coordinates
+			auto &k = s.knots[d];
+			if (p < 3) xv[d] = k[0] + (k.back() - k[0]) * r.U(); // a few plainly admissible vectors per table so every entry point runs
+			else if (edge_mode) { int cl; xv[d] = pos < hostile ? gen_coord(r, k, s.order[d], cl, 0.05) : k[0] + (k.back() - k[0]) * r.U(); }
+			else xv[d] = (pos < hostile || r.coin(0.2)) ? hostile_coord(r, k) : k[0] + (k.back() - k[0]) * r.U();
+			if (std::isnan(xv[d])) anynan = true;
+		}
 		Exact<double> x(xv); Exact<int> c(nd);
 		for (int d = 0; d < nd; d++) c.p[d] = 0x7fffffff;
 		phasef("searchcenters x=" + jarrd(xv));
